@@ -3,10 +3,11 @@ CONSTANTS
   NoDict = NoDict
   Kinds = {"file", "stream"}
   Handlings = {"resend", "delta"}
-  NDs = {1, 2}
+  NDs = {2}
   Vals = {"a", "b"}
   MaxLen = 2
   MaxWrites = 3
   ContinueAfterError = TRUE
+  Rich = FALSE
 INVARIANTS R1_RoundTrip R1s_StreamExact R2_FileNoReplacement R3_OneMessagePerAcceptedBatch I_Order I_Sync I_Refusals
 CHECK_DEADLOCK FALSE
